@@ -16,6 +16,7 @@ mod c07;
 mod c13;
 mod c12;
 mod stats;
+mod hashers;
 use util::*;
 
 fn main() {
@@ -87,12 +88,13 @@ fn main() {
                 "C19" => c19::corr(&mut ctx),
                 "C19sweep" => c19::sweep(&mut ctx),
                 "C17" => c17::corr(&mut ctx),
-                "C18" => c18::corr(&mut ctx),
+                "C18" => { hashers::corr(&mut ctx, "sha"); c18::corr(&mut ctx) }
                 "C14" => c14::corr(&mut ctx),
                 "C20" => c20::corr(&mut ctx),
-                "C02" => c02::corr(&mut ctx),
-                "C01" => { c02::corr_opts(&mut ctx, false); stats::pmh_statistics(&mut ctx); }
+                "C02" => { hashers::corr(&mut ctx, "fnv"); hashers::corr(&mut ctx, "sha"); c02::corr(&mut ctx) }
+                "C01" => { hashers::corr(&mut ctx, "fnv"); hashers::corr(&mut ctx, "sha"); c02::corr_opts(&mut ctx, false); stats::pmh_statistics(&mut ctx); }
                 "C04" => {
+                    hashers::corr(&mut ctx, "fnv");
                     c04::corr_smh(&mut ctx);
                     ssk::corr_sets(&mut ctx);
                     ssk::corr_sets_nohash(&mut ctx);
@@ -115,6 +117,7 @@ fn main() {
                 "C07" => {
                     c07::corr_bounds(&mut ctx);
                     ssk::corr_sets(&mut ctx);
+                    ssk::corr_merge(&mut ctx);        // registers of recycled sketchers (reinit / merge histories) feed the collision fraction too
                     stats::ssk_collision_statistics(&mut ctx)
                 }
                 "C06" => {
@@ -123,10 +126,10 @@ fn main() {
                     ssk::corr_merge(&mut ctx);
                     stats::ssk_cardinality_statistics(&mut ctx)
                 }
-                "C09" | "DENS" => dens::corr(&mut ctx),
-                "C08" => { dens::corr(&mut ctx); dens::selection_oracles(&mut ctx); stats::dens_statistics(&mut ctx); }
-                "C11" | "ORD" => ord::corr(&mut ctx),
-                "C10" => { ord::corr(&mut ctx); ord::omh_statistics(&mut ctx); }
+                "C09" | "DENS" => { hashers::corr(&mut ctx, "murmur"); hashers::corr(&mut ctx, "fnv"); dens::corr(&mut ctx) }
+                "C08" => { hashers::corr(&mut ctx, "murmur"); dens::corr(&mut ctx); dens::selection_oracles(&mut ctx); stats::dens_statistics(&mut ctx); }
+                "C11" | "ORD" => { hashers::corr(&mut ctx, "wy"); hashers::corr(&mut ctx, "fnv"); ord::corr(&mut ctx) }
+                "C10" => { hashers::corr(&mut ctx, "wy"); ord::corr(&mut ctx); ord::omh_statistics(&mut ctx); }
                 "SSK" => {
                     ssk::corr_sets(&mut ctx);
                     ssk::corr_merge(&mut ctx)
